@@ -639,8 +639,7 @@ class BuiltinMixin:
             p = pos.z
             m = z3.Length(data.z)
             # pos beyond end pads with zeros (not needed by the code: require pos <= len)
-            r, _ = self._check(p > n, timeout=self.branch_timeout_ms)
-            if r != z3.unsat:
+            if not self.entails(p <= n):
                 raise Unsupported('BytesIO.write beyond end of content')
             new = z3.Concat(z3.Extract(content.z, 0, p), data.z, z3.Extract(content.z, p + m, n - p - m))
             self.write_heap(recv, ck, TBytes, V(TBytes, z3.simplify(new)))
